@@ -283,49 +283,50 @@ theorem callProgressive_waiter (cfg : RP.Cfg) (st : RP.State) (hr : RP.Reachable
     `progress: true`, then — exactly when it has exited — one final chunk or one CANCEL; never
     anything after that; all with the call's request id and procedure. -/
 theorem sender_sends_shape (cfg : RP.Cfg) (st : RP.State) (hr : RP.Reachable cfg st) (g : Nat) :
-    P.Shape cfg.p st.p g := RP.sender_shape cfg st hr g
+    P.Shape cfg.pc st.p g := RP.sender_shape cfg st hr g
 
-/-- Every CANCEL of a waiter carries the configured mode; every CANCEL of a sender carries
-    `wamp.CancelModeKillNoWait`, whatever is configured (regenerated: the mode expression of both
-    `wamp.Cancel` literals in the goroutine). -/
+/-- Every CANCEL sent for a call, by the waiter and by the sender goroutine, carries the configured
+    mode (regenerated: the mode expression of every `wamp.Cancel` literal in `waitForReplyWithCancel`
+    and in the sender goroutine is `c.cancelMode`; fix 4f8171f). -/
 theorem cancel_modes (cfg : RP.Cfg) (st : RP.State) (hr : RP.Reachable cfg st) (hb : st.r.drawn < 2 ^ 53)
-    (hp : cfg.p = {}) :
+    (hp : cfg.p.usesConfigured = true) :
     (∀ q ∈ R.cancelsOf st.r.out, q.2 = cfg.r.cancelMode) ∧
-    (∀ q ∈ P.cancelsOf st.p.out, q.2 = "killnowait") := by
+    (∀ q ∈ P.cancelsOf st.p.out, q.2 = cfg.r.cancelMode) := by
   refine ⟨(cancel_sends_cancel cfg.r st.r (RP.r_reachable cfg st hr) hb).1, fun q hq => ?_⟩
   have := RP.sender_cancel_mode cfg st hr q hq
-  rw [hp] at this
-  exact this.trans P.sender_mode_today
+  simpa [RP.Cfg.pc, P.Cfg.senderCancelMode, hp] using this
 
-/-- Full strength "every CANCEL sent for a call carries the configured mode" … -/
-def cancel_configured_mode_full (cfg : RP.Cfg) : Prop :=
-  ∀ evs st, RP.steps cfg {} evs = some st →
-    (∀ q ∈ R.cancelsOf st.r.out, q.2 = cfg.r.cancelMode) ∧ (∀ q ∈ P.cancelsOf st.p.out, q.2 = cfg.r.cancelMode)
+/-- Full strength, for today's code and ANY configured mode: in every run of waiter + sender, every
+    CANCEL carries the configured mode. A run may still contain TWO CANCELs for one request — when the
+    caller's context ends while a `sendProg` that honours it is waiting, the waiter sends one and the
+    sender goroutine another (`RP.doubleCancel`) — both with the configured mode. -/
+theorem cancel_configured_mode (mode : String) (evs : List RP.Ev) (st : RP.State)
+    (h : RP.steps { r := { cancelMode := mode } } {} evs = some st) (hb : st.r.drawn < 2 ^ 53) :
+    (∀ q ∈ R.cancelsOf st.r.out, q.2 = mode) ∧ (∀ q ∈ P.cancelsOf st.p.out, q.2 = mode) :=
+  cancel_modes { r := { cancelMode := mode } } st ⟨evs, h⟩ hb P.sender_uses_configured_today
 
-/-- … is FALSE for `CallProgressive` under any configured mode other than the default (finding
-    candidate): the caller's context ends while `sendProg`, which honours it, waits for the next
-    chunk; the waiter sends CANCEL{mode: kill} as configured and the sender sends a second
-    CANCEL for the same request with mode killnowait (`RP.doubleCancel`). -/
-theorem cancel_configured_mode_full_fails :
-    ¬ cancel_configured_mode_full { r := { cancelMode := "kill" } } := by
-  intro h
-  have hw : (RP.steps { r := { cancelMode := "kill" } } {} RP.doubleCancel).map
+/-- The two CANCELs of `RP.doubleCancel` under mode "kill": both say "kill" (regression witness of
+    fix 4f8171f) … -/
+theorem double_cancel_same_mode :
+    (RP.steps { r := { cancelMode := "kill" } } {} RP.doubleCancel).map
+      (fun st => (R.cancelsOf st.r.out, P.cancelsOf st.p.out)) = some ([(1, "kill")], [(1, "kill")]) := by decide
+
+/-- … whereas with the hard-coded mode of before the fix the sender's said "killnowait". -/
+theorem double_cancel_old_code_mixed_modes :
+    (RP.steps { r := { cancelMode := "kill" }, p := { usesConfigured := false } } {} RP.doubleCancel).map
       (fun st => (R.cancelsOf st.r.out, P.cancelsOf st.p.out)) = some ([(1, "kill")], [(1, "killnowait")]) := by decide
-  cases hs : RP.steps { r := { cancelMode := "kill" } } {} RP.doubleCancel with
-  | none => rw [hs] at hw; simp at hw
-  | some st =>
-    rw [hs] at hw
-    simp at hw
-    have := (h _ st hs).2 (1, "killnowait") (by rw [hw.2]; simp)
-    simp at this
 
-/-- Partial, with the exact guard: under the default mode (killnowait) every CANCEL carries the
-    configured mode. -/
-theorem cancel_configured_mode_partial (cfg : RP.Cfg) (hp : cfg.p = {}) (hm : cfg.r.cancelMode = "killnowait")
-    (st : RP.State) (hr : RP.Reachable cfg st) (hb : st.r.drawn < 2 ^ 53) :
-    (∀ q ∈ R.cancelsOf st.r.out, q.2 = cfg.r.cancelMode) ∧ (∀ q ∈ P.cancelsOf st.p.out, q.2 = cfg.r.cancelMode) := by
-  obtain ⟨h1, h2⟩ := cancel_modes cfg st hr hb hp
-  exact ⟨h1, fun q hq => (h2 q hq).trans hm.symm⟩
+/-- Options that leave `progress` unset (allowed by the documentation of `SendProgressiveData`) mean
+    the last chunk (comma-ok assertion, fix 42310e3): the sender sends it with `progress: false` and
+    exits … -/
+theorem unset_progress_is_last_chunk :
+    (RP.steps {} {} RP.unsetProgress).map (fun st => (P.sendsOf 1 st.p.out, (st.p.ss 1).phase, st.p.crashed)) =
+      some ([.callChunk 1 "p" false true, .callChunk 1 "p" false false], .exited, none) := by decide
+
+/-- … whereas the bare assertion of before the fix panicked the sender goroutine. -/
+theorem unset_progress_old_code_panics :
+    (RP.steps { p := { progressCommaOk := false } } {} RP.unsetProgress.dropLast).map (fun st => st.p.crashed) =
+      some (some P.noFlagSite) := by decide
 
 /-- The sender watches neither the call's return nor Done (finding candidate, leak): after the call
     has returned it goes on pulling chunks and sending CALLs for the finished request … -/
